@@ -228,7 +228,12 @@ template<> struct GridReaderVersion5<GridFourier>{
 
         grid->wrapper = OneDimensionalWrapper(oned_max_level, rule_fourier, 0.0, 0.0);
 
-        grid->max_power = MultiIndexManipulations::getMaxIndexes(((grid->points.empty()) ? grid->needed : grid->points));
+        if (grid->points.empty() and grid->needed.empty()){
+            // a grid in construction before the first point was loaded: no powers yet, but one entry per dimension as after makeGrid()
+            grid->max_power = std::vector<int>((size_t) grid->num_dimensions, 0);
+        }else{
+            grid->max_power = MultiIndexManipulations::getMaxIndexes(((grid->points.empty()) ? grid->needed : grid->points));
+        }
 
         return grid;
     }
